@@ -13,6 +13,7 @@ NOT_DECIDED = [
 ]
 CONFIG_SENSITIVE = False
 DESUGAR = True
+SPLICE_LOOP_HELPERS = ("dewey::Dewey::matches",)    # the bounds loop of Dewey::matches moved into a helper is judged in place (dewey_cmp keeps its helper forms)
 
 CMP = "dewey::dewey_cmp"
 TEST = "dewey::dewey_test"
